@@ -167,11 +167,12 @@ PROPS = {
     "C16": {
         "level": "exploration",
         "jobs": {
-            "quick": [job("sim", "mux", "verif", "c16", 8)],
-            "thorough": [job("sim", "mux", "verif", "c16", 16)],
+            "quick": [job("sim", "mux", "verif", "c16", 8), job("client", "e2e", "verif", "c16e", 8, timeout=600)],
+            "thorough": [job("sim", "mux", "verif", "c16", 16), job("client", "e2e", "verif", "c16e", 8, timeout=1200)],
         },
         "required_targets": {"any": ['timeouts_observed', 'live_runs_to_horizon', 'pending_ops_checked', 'sub_second_runs']},
-        "assumptions": COMMON_ASSUMPTIONS + SIM_ASSUMPTIONS + ["all time is virtual (tokio paused clock; the TimestampProvider reads tokio's clock); timestamps are exact", "builder order is the client's (interval, then timeout); the reverse order is a recorded probe without verdict", "'never times out' is checked up to a horizon of 2000 intervals", "a Ping sent by the peer is not an answer to ours: a peer that only pings is a peer that stopped answering"],
+        "assumptions": COMMON_ASSUMPTIONS + SIM_ASSUMPTIONS + ["all time is virtual (tokio paused clock; the TimestampProvider reads tokio's clock); timestamps are exact", "builder order is the client's (interval, then timeout); the reverse order is a recorded probe without verdict", "'never times out' is checked up to a horizon of 2000 intervals", "a Ping sent by the peer is not an answer to ours: a peer that only pings is a peer that stopped answering",
+            "job client (ve2e c16e): the real client is given I and T in its arguments and observed from a byte-forwarding gate that timestamps the WebSocket Pings and Pongs it relays; real time with generous margins (at least W/I - 3 Pings in a window W, abandonment between T - 50 ms and T + I + 900 ms after the last relayed Pong) and a punctuality witness; T = I is left to the virtual-time job because wall-clock jitter decides it"],
     },
     "C10": {
         "level": "fault_enumeration",
